@@ -10,15 +10,15 @@ COMMON_NOTE = ('Trusted base: Coq 8.16.1 kernel (vm_compute in some proofs, no n
                '(every theorem "Closed under the global context" unless the evidence names one), the fail-closed '
                'Python-ast translator, ExtrOcamlBasic-only extraction + ocaml/driver.ml, the correspondence harness. ')
 
-CHAIN_NOTE = ('Modelled not verified: signature extraction by boltons FunctionBuilder (the harness functions have real '
+CHAIN_NOTE = ('The functions the chain model transcribes by hand are pinned statement by statement (Gen/ChainShape.v, reflexivity obligation). Modelled not verified: signature extraction by boltons FunctionBuilder (the harness functions have real '
               'signatures and record what they receive), CPython keyword-call semantics (sig_accepts), user middlewares '
               'calling next() with their declared provides; set iteration order (quantified by hash seeds in the thorough tier). ')
 
-DISPATCH_NOTE = ('Modelled not verified: werkzeug Request/Response/redirect, ExceptionInfo.from_current, the '
+DISPATCH_NOTE = ('Application.dispatch, _dispatch_wsgi, DispatchState and BoundRoute.match_path/match_method/execute are pinned statement by statement (Gen/DispatchShape.v, reflexivity obligation). Modelled not verified: werkzeug Request/Response/redirect, ExceptionInfo.from_current, the '
                  'Accept negotiation inside render_error; whether a pattern matches is an input of the dispatch model '
                  '(C05 decides it; every table is additionally routed by the composed pattern+match+dispatch model, tag dispatchfull, and both must agree); what executing a route yields is abstracted to an outcome (Model/Exec supplies it). ')
 
-WORLD_NOTE = ('Modelled not verified: the dependency check inside BoundRoute.__init__ is reduced in the World model to '
+WORLD_NOTE = ('Application.__init__/add, SubApplication, Route and BoundRoute.__init__/bind are pinned statement by statement (Gen/WorldShape.v, Gen/ChainShape.v, reflexivity obligation). Modelled not verified: the dependency check inside BoundRoute.__init__ is reduced in the World model to '
               '"every needed name has a source" (C01 decides it in full on Model/Chain.v); render functions, factories, '
               'handlers and resource values are identities (numbers); aliasing inside the implementation (shared lists) is '
               'not expressible in the model and is exactly what the per-operation snapshots/probes of every live '
